@@ -8,8 +8,12 @@ tree (vlib.build_tools) plus an ASan/UBSan build of unber made here, against
   (ii) the property oracle, independent of the model: enber(unber -p(x)) == x for
        well-formed minimal x, the O/T/TL/V attributes equal the TLV structure
        found by the small BER walker below, and on arbitrary bytes unber exits 0
-       or 65-with-diagnostic, without signal, sanitizer report or timeout."""
-import sys, os, re, json, subprocess, multiprocessing, multiprocessing.pool
+       or 65-with-diagnostic, without signal, sanitizer report or timeout.
+  (iii) the same last clause for unber's other modes (plain pretty-printing, -1, -i, -m,
+       -s, stdin, several files, -t), which are not modelled: typed documents (every
+       universal tag number with contents aimed at print_V's case splits) and a
+       malformed stream under the ASan/UBSan/LSan build; see modes_stage."""
+import sys, os, re, json, zlib, subprocess, multiprocessing, multiprocessing.pool
 sys.path.insert(0, os.path.join(os.path.dirname(os.path.abspath(__file__)), "..", "lib"))
 from vlib import *
 
@@ -513,12 +517,693 @@ def mutate_records(rng, rs):
     return rs, what
 
 
+# --------------------------------------------------------------------------
+# unber's other modes: plain `unber` (pretty-printing of the universal types in
+# print_V), -1, -i <n>, -m, -s <skip>, several files, stdin, and -t <hex>.
+# Nothing of this is modelled (except the OID arc count, Tools/UnberOid.v); the
+# oracle is the memory-safety / termination half of the property: the process
+# ends by itself with status 0 or with a diagnostic and a non-zero status, no
+# signal, no sanitizer report, within the time limit; on a well-formed input
+# every mode that does not cut the input (-s) ends with status 0 and the plain
+# output carries the TLV structure.
+# Contents generators are aimed at the case splits of print_V:
+#   BOOLEAN  tlv_len == 1 or not; 00 / ff / other
+#   INTEGER, ENUMERATED  tlv_len <= 8 (collector) or not
+#   OBJECT IDENTIFIER, RELATIVE-OID  0 < tlv_len < 128K -> arcs[tlv_len+1], vbuf;
+#       get_arcs >= 0 (n octets -> up to n+1 arcs) or -1 (-> the text/binary scan)
+#   UTCTime, GeneralizedTime, Numeric/Printable/Visible/IA5/UTF8String  per-octet
+#       escape (0x80 bit, < 0x20, < > &)
+#   BMPString, UniversalString  no buffer
+#   other strings, OCTET STRING, non-universal classes  vbuf, 12.5% binary threshold, 0x1b
+#   everything else (BIT STRING, NULL, REAL, EXTERNAL, 14, 15, 16, 17 as primitive, > 30)
+
+U_DIRECT = (12, 18, 19, 22, 23, 24, 26)          # printed octet by octet
+U_VBUF = (4, 7, 20, 21, 25, 27)                  # collected, then text or binary
+U_NOBUF = (28, 30)
+STR_LENS = [1, 2, 7, 8, 9, 15, 16, 17, 31, 32, 33, 63, 64, 65, 255, 256, 257]
+
+
+def subid(v, pad=0):
+    ds = [v & 0x7f]
+    v >>= 7
+    while v:
+        ds.append(0x80 | (v & 0x7f))
+        v >>= 7
+    ds += [0x80] * pad
+    return bytes(reversed(ds))
+
+
+def oid_bodies():
+    out = []
+    for n in range(1, 21):                       # n octets, all below 0x80: n+1 arcs for an OBJECT IDENTIFIER
+        out.append(bytes(((i * 5 + 42) & 0x7f) for i in range(n)))
+        out.append(bytes([0x2a] + [0x7f] * (n - 1)))
+        out.append(bytes(n))
+        out.append(bytes([0x2a] * (n - 1)) + subid(840))          # one two-octet arc at the end: n+1 octets, n+1 arcs
+        out.append(subid(113549) + bytes([1] * (n - 1)))
+    for v in (0, 39, 40, 79, 80, 119, 120, 127):                  # first subidentifier: arc0/arc1 split
+        out += [bytes([v]), bytes([v, 1])]
+    for v in (128, 16383, 16384, 2**21 - 1, 2**21, 2**28 - 1, 2**28, 2**32 - 1, 2**32, 2**32 + 80, 2**35 - 1, 2**35, 2**63, 2**70):
+        out += [subid(v), b"\x2a" + subid(v), b"\x2a" + subid(v) + b"\x01", subid(v) + subid(v), subid(v, 1), b"\x2a" + subid(v, 2) + b"\x03"]
+    out += [b"\x80", b"\x80\x01", b"\x80\x80", b"\x2a\x80\x01", b"\x2a\x80\x80\x80\x80\x80\x01", b"\x2a\x80", b"\x2a\x86", b"\x2a\x03\x86",
+            b"\xff", b"\xff" * 5, b"\xff" * 6, b"\xff\xff\xff\xff\x7f", b"\x8f\xff\xff\xff\x7f", b"\x90\x80\x80\x80\x00",
+            bytes.fromhex("2a864886f70d01010b"), bytes.fromhex("550403"), bytes.fromhex("2b06010505070301"), bytes.fromhex("6086480165030402 01")]
+    for n in (31, 32, 33, 63, 64, 65, 127, 128, 129, 255, 256, 257, 1000):
+        out += [bytes([0x2a] + [1] * (n - 1)), bytes([0x2a] + [0x81, 0x01] * ((n - 1) // 2)), bytes([0x81] * (n - 1) + [0x01]), bytes([0x2a] * (n - 1) + [0x81])]
+    return out
+
+
+def int_bodies():
+    out = []
+    for n in range(0, 11):
+        out += [bytes(n), b"\xff" * n, b"\x7f" + b"\xff" * (n - 1) if n else b"", b"\x80" + bytes(n - 1) if n else b"",
+                b"\x01" + bytes(n - 1) if n else b"", bytes((i * 37 + 0x9c) & 0xff for i in range(n)), b"\x00" + b"\xff" * (n - 1) if n else b""]
+    out += [bytes([0x12] * 16), bytes([0xfe] * 17), bytes([0x80] + [0] * 127)]
+    return out
+
+
+BOOL_BODIES = [b"", b"\x00", b"\xff", b"\x01", b"\x80", b"\x7f", b"\x00\x00", b"\xff\xff", b"\x00\xff\x01", b"\x3c"]
+TIME_BODIES = [b"", b"Z", b"230101120000Z", b"2301011200Z", b"230101120000+0100", b"9912312359", b"20230101120000Z", b"20230101120000.5Z",
+               b"20230101120000,123456789+0100", b"2023010112", b"99999999999999", b"230101<120000>&Z", b"\x00" * 13, b"2301\x80\xff1200Z",
+               b"23010112\x1b000Z", b"Z" * 64, b"2" * 257, b"20230101120000.\n\tZ", "2023-01-01T12:00:00±".encode()]
+REAL_BODIES = [b"", b"\x00", b"\x40", b"\x41", b"\x42", b"\x43", b"\x44", b"\x80\x00\x01", b"\x80\xfe\x03", b"\xc0\x05\x7f", b"\x81\x03\xff\x01", b"\x82\x00\x00\x01\x05",
+               b"\x83\x02\x01\x00\x01", b"\x83\xff\x01", b"\x83\x00", b"\x83", b"\xbf\xff\xff", b"\x01123", b"\x02 1.5", b"\x031.E0", b"\x03-0.E-1000", b"\x3f???",
+               b"\x80" + b"\xff" * 20, b"\x80\x00" + bytes(300)]
+UTF8_OK = ["é", "€", "\U0001f600", "aЖ中", "߿ࠀ￿\U00010000\U0010ffff", "\x7f\u0080"]
+UTF8_BAD = [b"\x80", b"\xbf", b"\xc3", b"\xe2\x82", b"\xf0\x9f\x98", b"\xc0\x80", b"\xc1\xbf", b"\xe0\x80\x80", b"\xed\xa0\x80", b"\xf4\x90\x80\x80",
+            b"\xf8\x88\x80\x80\x80", b"\xfc\x84\x80\x80\x80\x80", b"\xfe", b"\xff", b"\xff\xfe", b"a\xc3(", b"\xe2(\xa1", b"\xf0(\x8c\xbc"]
+
+
+def fill(unit, n):
+    return (unit * (n // len(unit) + 1))[:n]
+
+
+def str_bodies(n):
+    """contents of length n for the string printers (escape classes, text/binary threshold of the vbuf scan)"""
+    out = [bytes(0x20 + (i * 7) % 95 for i in range(n)),           # printable ASCII
+           fill(b"a<b>c&d\"e'", n), fill(b"line\r\n\tnext ", n),     # XML specials, white space (not counted as binary)
+           bytes(n), b"\xff" * n, b"\x7f" * n, b"\x1f" * n, fill(b"\x7e\x7f\x80\x20\x1f", n),
+           b"\x1b" + b"a" * (n - 1), b"a" * (n - 1) + b"\x1b"]
+    k = n >> 3                                                       # vbuf scan: binary once more than n/8 octets are unprintable
+    for d in (-1, 0, 1, 2):
+        if 0 <= k + d <= n:
+            out.append(b"a" * (n - k - d) + b"\x01" * (k + d))
+            out.append(b"\x80" * (k + d) + b"z" * (n - k - d))
+    for u in UTF8_OK:
+        out.append(fill(u.encode(), n))                              # (cut at n: the last character may be incomplete)
+        e = u.encode()
+        if len(e) <= n:
+            out.append(b"x" * (n - len(e)) + e)
+    for b in UTF8_BAD:
+        if len(b) <= n:
+            out += [b + b"y" * (n - len(b)), b"y" * (n - len(b)) + b]
+    return out
+
+
+def typed_bodies(num, full, stride=1):
+    """directed contents for a primitive [UNIVERSAL num]; full = every string length; stride > 1 (quick tier):
+    every stride-th of the string contents, starting at a different one for every length and tag number"""
+    base = [b"", b"\x00", b"\x7f", b"\x80", b"\xff", b"\x1b", b"<", b"ab", bytes(range(1, 21)), bytes(range(0x70, 0x90))]
+    for n in (range(1, 21) if stride == 1 or num in (6, 13) else (1, 2, 3, 4, 6, 8, 9, 10, 16, 17, 20)):
+        base.append(bytes(((i * 3 + 1) & 0x7f) for i in range(n)))   # every octet below 0x80, lengths 1..20, for every type
+    if num == 1:
+        return base + BOOL_BODIES
+    if num in (2, 10):
+        return base + int_bodies()
+    if num in (6, 13):
+        return base + oid_bodies()
+    if num in (23, 24):
+        return base + TIME_BODIES + str_bodies(17)[(num % stride)::stride]
+    if num == 9:
+        return base + REAL_BODIES
+    lens = STR_LENS if full else [1, 16, 17, 257]
+    out = list(base)
+    for n in lens:
+        out += str_bodies(n)[((n + num) % stride)::stride]
+    return out
+
+
+def typed_directed(quick):
+    """well-formed documents: one primitive of every universal tag number 1..30 (and 0, 14, 15, 31, 32,
+    2^30-1, and the other classes) around every directed contents; the same inside constructed parents"""
+    out = []
+    fullset = (4, 12, 19, 30)
+    for num in range(0, 33):
+        for b in typed_bodies(num, num in fullset or not quick, 1 if not quick else 4 if num in fullset else 6):
+            if num == 0 and not b:
+                continue
+            out.append(('P', 0, num, b))
+    for cls, num in ((1, 6), (2, 5), (3, 2), (2, 31), (1, 2**30 - 1), (0, 2**30 - 1), (0, 127)):     # non-universal: treated as OCTET STRING
+        for b in typed_bodies(4, cls == 2 and num == 5, 1 if not quick else 4 if num == 5 else 6):
+            out.append(('P', cls, num, b))
+    # the 128K cut-off of the buffers (tlv_len < 128 * 1024)
+    for n in (131071, 131072, 131073):
+        for cls, num in ((0, 6), (0, 13), (0, 4), (2, 0), (0, 12), (0, 2)):
+            out.append(('P', cls, num, bytes([0x2a] + [1] * (n - 1))))
+        out.append(('P', 0, 6, bytes([0x81] * (n - 1) + [1])))
+        out.append(('P', 0, 4, b"\x01" * n))
+    docs = [("typed-directed", t) for t in out]
+    # nested: typed primitives as members of definite / indefinite parents, two per parent (heap no longer pristine)
+    prims = [t for t in out if len(t[3]) <= 40]
+    step = 17 if quick else 2
+    for k in range(0, len(prims) - 1, step):
+        a, b = prims[k], prims[(k * 13 + 5) % len(prims)]
+        docs.append(("typed-nested", ('C', 0, 16, k % 4 < 2, [a, ('C', 2, k % 31, k % 3 == 0, [b]), a])))
+    # constructed encodings carrying the tag numbers of the primitive types
+    for num in range(1, 31):
+        docs.append(("typed-nested", ('C', 0, num, True, [('P', 0, 4, b"ab"), ('P', 0, num, b"\x2a\x03")])))
+        docs.append(("typed-nested", ('C', 0, num, False, [('P', 0, num, b"\x2a\x03"), ('C', 0, num, False, [])])))
+    return docs
+
+
+def g_oid_body(rng):
+    r = rng.below(10)
+    n = rng.below(21)
+    if r < 3:
+        return bytes(rng.below(128) for _ in range(n))               # all single-octet arcs
+    out = b""
+    for _ in range(n):
+        q = rng.below(40)
+        if q < 24:
+            out += bytes([rng.below(128)])
+        elif q < 36:
+            out += subid(rng.below(2 ** rng.range(8, 33)))
+        elif q < 38:
+            out += subid(rng.below(2 ** 32), 1 + rng.below(2))     # 0x80 lead octets
+        else:
+            out += subid(2 ** 32 + rng.below(2 ** 40))               # more than 32 bits
+    if rng.chance(1, 12):
+        out += bytes([0x80 | rng.below(128)])                        # ends inside a subidentifier
+    return out
+
+
+def g_typed_body(rng, num):
+    if rng.chance(1, 12):
+        return b""
+    if num == 1:
+        return rng.choice(BOOL_BODIES) if rng.chance(2, 3) else rng.bytes(rng.below(4))
+    if num in (2, 10):
+        n = rng.below(11)
+        b = rng.bytes(n)
+        if n and rng.chance(1, 2):
+            b = bytes([rng.choice([0, 0xff, 0x7f, 0x80])]) + b[1:]
+        return b
+    if num in (6, 13):
+        return g_oid_body(rng)
+    if num in (23, 24) and rng.chance(1, 2):
+        b = bytearray(rng.choice(TIME_BODIES))
+        if b and rng.chance(1, 3):
+            b[rng.below(len(b))] = rng.below(256)
+        return bytes(b)
+    if num == 9 and rng.chance(2, 3):
+        return rng.choice(REAL_BODIES)
+    n = rng.choice(STR_LENS) + rng.choice([0, 0, 0, 1, -1]) if rng.chance(1, 3) else rng.below(20)
+    n = max(n, 0)
+    r = rng.below(8)
+    if r == 0:
+        return rng.bytes(n)
+    if r == 1:
+        return bytes(0x20 + rng.below(95) for _ in range(n))
+    if r == 2:
+        return fill("".join(rng.choice(UTF8_OK) for _ in range(3)).encode(), n)
+    if r == 3:
+        b = bytearray(0x20 + rng.below(95) for _ in range(n))
+        for _ in range(rng.choice([0, 1, (n >> 3), (n >> 3) + 1, (n >> 3) + 2])):
+            if b:
+                b[rng.below(len(b))] = rng.choice([0, 1, 0x1b, 0x7f, 0x80, 0xff, 0x09, 0x0a, 0x0d, 0x1f])
+        return bytes(b)
+    if r == 4:
+        bad = rng.choice(UTF8_BAD)
+        return fill(bad + b"ok", n) if rng.chance(1, 2) else (b"q" * max(0, n - len(bad)) + bad)
+    bodies = str_bodies(n)
+    return bodies[rng.below(len(bodies))]
+
+
+def g_tprim(rng, in_indef, small=True):
+    """primitive with a type-directed body: [UNIVERSAL 1..30] most of the time"""
+    r = rng.below(16)
+    if r < 12:
+        cls, num = 0, 1 + rng.below(30)
+    elif r < 14:
+        cls, num = 1 + rng.below(3), rng.below(40)
+    else:
+        cls, num = g_tag(rng)
+    body = g_typed_body(rng, num if cls == 0 else 4)
+    if in_indef and cls == 0 and num == 0 and len(body) == 0:
+        body = b"\x00"
+    return ('P', cls, num, body)
+
+
+def g_ttree(rng, depth, in_indef=False, fan=3):
+    """as g_tree, with typed primitives and universal tag numbers 1..30 on half of the constructed nodes"""
+    def ctag():
+        return (0, 1 + rng.below(30)) if rng.chance(1, 2) else g_tag(rng)
+    if depth <= 1:
+        if rng.chance(1, 8):
+            cls, num = ctag()
+            return ('C', cls, num, rng.chance(1, 2), [])
+        return g_tprim(rng, in_indef)
+    cls, num = ctag()
+    definite = rng.chance(1, 2)
+    k = 1 + rng.below(fan)
+    spine = rng.below(k)
+    ch = []
+    for i in range(k):
+        d = depth - 1 if i == spine else rng.below(min(depth, 4))
+        ch.append(g_ttree(rng, d, not definite, fan) if d >= 1 else g_tprim(rng, not definite))
+    return ('C', cls, num, definite, ch)
+
+
+def mutate_typed(rng, docs, tier):
+    """malformed stream around the typed documents: truncation at every offset, every bit of every
+    octet (header and contents), byte edits, wrong lengths; random octets behind a universal header"""
+    out = []
+    for d in docs:
+        for i in range(len(d)):
+            out.append(("trunc", d[:i]))
+        for p in range(len(d)):
+            for bit in range(8):
+                m = bytearray(d); m[p] ^= 1 << bit
+                out.append(("bitflip", bytes(m)))
+        for _ in range(6 if tier == "quick" else 40):
+            m = bytearray(d)
+            for _ in range(1 + rng.below(3)):
+                if not m:
+                    break
+                r = rng.below(4)
+                p = rng.below(len(m))
+                if r == 0:
+                    m[p] = rng.choice([0, 0x7f, 0x80, 0x81, 0xff, 0x1b, 0x2a])
+                elif r == 1:
+                    del m[p]
+                elif r == 2:
+                    m.insert(p, rng.below(256))
+                else:
+                    m[p] = rng.below(256)
+            out.append(("mut", bytes(m)))
+    for _ in range(500 if tier == "quick" else 8000):
+        num = rng.below(32)
+        actual = rng.below(40)
+        r = rng.below(6)
+        declared = actual if r < 3 else (rng.below(48) if r < 5 else rng.choice([127, 128, 255, 1000]))
+        body = rng.bytes(actual) if rng.chance(1, 2) else g_typed_body(rng, num)[:actual]
+        hdr = enc_tag(0, num, rng.chance(1, 10)) + enc_len(declared, rng.choice([0, 0, 0, 1]))
+        pre = b"\x30\x80" if rng.chance(1, 4) else b""
+        out.append(("random-typed", pre + hdr + body + (b"\x00\x00" if pre and rng.chance(1, 2) else b"")))
+    return out
+
+
+MODE_DIAGS = DIAGS + [(re.compile(r'input source has less data than "-s (\d+)" switch wants to skip'), "SKIP:%s"),
+                      (re.compile(r"No such file or directory"), "NOFILE"),
+                      (re.compile(r"TAG: Fatal error decoding tag|TAG: More data expected|LEN: Fatal error decoding length|LEN: More data expected|Unexpected symbols in data string"), "TSTRING")]
+POPEN_RE = re.compile(rb'^( *)<([PCI]) O="(\d+)" T="\[(UNIVERSAL |APPLICATION |PRIVATE |)(\d+)\]" TL="(\d+)" V="(\d+|Indefinite)"')
+SAN_WORDS = ("AddressSanitizer", "LeakSanitizer", "runtime error", "UndefinedBehaviorSanitizer", "Sanitizer: ")
+
+
+def mode_exit(rc, err, allowed=(0, 65)):
+    """exit class of a run in one of the modes: OK, DIAG:<known diagnostic>, or what is wrong"""
+    if rc == "timeout":
+        return "TIMEOUT"
+    if rc in (77, 78) or any(w in err for w in SAN_WORDS):
+        return "SANITIZER:%s" % rc
+    if not isinstance(rc, int) or rc < 0 or rc >= 128:
+        return "SIGNAL:%s" % rc
+    if rc == 0:
+        return "OK"
+    if rc not in allowed:
+        return "EXIT:%s" % rc
+    if rc == 65:
+        for rx, fmt in MODE_DIAGS:
+            m = rx.search(err)
+            if m:
+                return "DIAG:" + (fmt % m.groups() if m.groups() else fmt).split(":")[0]
+        return "EXIT:65-without-known-diagnostic"
+    return "DIAG:exit%d" % rc if err.strip() else "EXIT:%d-silent" % rc
+
+
+def plain_nodes(out):
+    """(offset, cls, num, constructed, TL, V or -1) of every opening line of plain / -i output (contents never
+    hold a raw line feed or '<': print_V escapes both in every branch)"""
+    res = []
+    for ln in out.split(b"\n"):
+        s = ln.lstrip(b" ")
+        if not s.startswith(b"<") or s.startswith(b"</"):
+            continue
+        m = POPEN_RE.match(ln)
+        if not m:
+            res.append(("unparsed", ln[:80]))
+            continue
+        v = -1 if m.group(7) == b"Indefinite" else int(m.group(7))
+        res.append((int(m.group(3)), CLASS_WORD.index(m.group(4).decode()), int(m.group(5)), m.group(2) != b"P", int(m.group(6)), v))
+    return res
+
+
+def clip(err, head=1800, tail=700):
+    """the head of a sanitizer report names the error and the site, the tail holds the summary"""
+    return err if len(err) <= head + tail else err[:head] + "\n...\n" + err[-tail:]
+
+
+def _run2(cmd, inp=None, env=None, timeout=30):
+    try:
+        p = subprocess.run(cmd, input=inp, stdout=subprocess.PIPE, stderr=subprocess.PIPE, timeout=timeout, env=env)
+        return p.returncode, p.stdout, clip(p.stderr.decode("latin1"), 4000, 3000)     # (the head names the error, deep inputs make long traces)
+    except subprocess.TimeoutExpired:
+        return "timeout", b"", ""
+
+
+BATCH = 8            # well-formed inputs handed to one sanitizer process (`unber f1 ... f8`: status 0 expected from every file)
+
+
+def _work_modes(batch):
+    """jobs:
+    ("S", jid, x or None, args with 'F' standing for the input file, stdin?, run the plain build too?)
+    ("B", [jid], [x], option arguments, run the plain build too?)   well-formed inputs, one sanitizer process for
+        all files (an ASan/LSan process costs ~5 times the plain one); any deviation from `status 0, silent, same
+        stdout as the plain build file by file` and every file is run again on its own
+    result per jid: (jid, plain rc, plain stderr, asan rc, asan stdout or None, asan stderr, same stdout?)"""
+    res = []
+    pid = os.getpid()
+    path = os.path.join(_W["tmp"], "m.%d.ber" % pid)
+    made = {path}
+
+    def one(jid, x, args, use_stdin, both, rr=None):
+        argv = [path if a == "F" else a for a in args]
+        if x is not None:
+            open(path, "wb").write(x)
+        inp = x if use_stdin else None
+        rrc, rout, rerr = rr if rr else (None, b"", "")
+        if both and not rr:
+            rrc, rout, rerr = _run2([_W["unber"]] + argv, inp=inp)
+        arc, aout, aerr = _run2([_W["asan"]] + argv, inp=inp, env=SAN_ENV)
+        return (jid, rrc, rerr.replace(path, "F"), arc, aout if len(aout) <= 200000 else aout[:200000], aerr.replace(path, "F"), (not both) or rout == aout)
+    for job in batch:
+        if job[0] == "S":
+            res.append(one(*job[1:]))
+            continue
+        _, jids, xs, opts, both = job
+        paths = [os.path.join(_W["tmp"], "b.%d.%d.ber" % (pid, k)) for k in range(len(xs))]
+        made.update(paths)
+        rrs = []
+        for pth, x in zip(paths, xs):
+            open(pth, "wb").write(x)
+            if both:
+                rrc, rout, rerr = _run2([_W["unber"]] + opts + [pth])
+                rrs.append((rrc, rout, rerr.replace(pth, "F")))
+        arc, aout, aerr = _run2([_W["asan"]] + opts + paths, env=SAN_ENV)
+        if arc == 0 and not aerr.strip() and (not both or (all(r[0] == 0 and not r[2].strip() for r in rrs) and aout == b"".join(r[1] for r in rrs))):
+            for k, jid in enumerate(jids):
+                res.append((jid, rrs[k][0] if both else None, "", 0, rrs[k][1] if both else None, "", True))
+            continue
+        singles = [one(jid, x, opts + ["F"], False, both, rrs[k] if both else None) for k, (jid, x) in enumerate(zip(jids, xs))]
+        res += singles
+        if all(r[3] == 0 and not r[5].strip() and r[6] and r[1] in (0, None) for r in singles):
+            res.append(("batch", jids, arc, aerr[-3000:]))      # every file is fine alone, the run over all of them is not
+    for pth in made:
+        try:
+            os.unlink(pth)
+        except OSError:
+            pass
+    return res
+
+
+T_STRINGS = ["", "0", "00", "0000", "1f", "1f80", "1f8001", "bf20", "BF20", "3080", "30 80", "30\t80\n", " 3 0 8 0 ", "308", "0481", "0481ff", "04ff", "0480", "3080000",
+             "1f" + "ff" * 40, "1f" + "80" * 40 + "01", "1f848080800000", "df8fffffff7f00", "0488" + "ff" * 8, "0489" + "00" * 9, "04" + "fe" + "01" * 126, "30" + "fe" + "01" * 126,
+             "3g", "g", "30,80", "0x30", "30 80 zz", "-1", "3\x7f", "30é", "a" * 5000, "1f" + "8" * 4999, "30 " * 3000, "f" * 20001]
+
+
+def big_negative_integer(x):
+    """input shape of finding C20-itoa-shift: somewhere in x the octets of a primitive [UNIVERSAL 2] or
+    [UNIVERSAL 10] (tag and length in any form) with 9..16 contents octets, all present, whose value is below
+    LONG_MIN - the only way print_V reaches line 125 of asn1p_integer.c.  Every offset is tried: unber reads a
+    stream and descends into containers whose announced length exceeds the file, where walk() stops."""
+    n = len(x)
+    for o in range(n - 10):
+        if x[o] & 0xe0:
+            continue                                  # universal, primitive
+        p = o + 1
+        num = x[o] & 0x1f
+        if num == 0x1f:
+            num = 0
+            while p < n and p - o < 8:
+                num = (num << 7) | (x[p] & 0x7f)
+                p += 1
+                if not x[p - 1] & 0x80:
+                    break
+            else:
+                continue
+        if num not in (2, 10) or p >= n:
+            continue
+        ln = x[p]
+        p += 1
+        if ln & 0x80:
+            k = ln & 0x7f
+            if k == 0 or k > 8 or p + k > n:
+                continue
+            ln = int.from_bytes(x[p:p + k], "big")
+            p += k
+        if 9 <= ln <= 16 and p + ln <= n and int.from_bytes(x[p:p + ln], "big", signed=True) < -2**63:
+            return True
+    return False
+
+
+ITOA_SHIFT_RE = re.compile(r"^\S*libasn1parser/asn1p_integer\.c:125:\d+: runtime error: left shift of 1 by 127 places cannot be represented in type '__int128'\s*\n\s*#0 0x[0-9a-f]+ in asn1p_itoa_s ", re.M)
+
+
+def modes_stage(run, rng, cases, typed_docs, unber, asan, model, tmpdir, quick):
+    """runs the other modes; returns counters for the evidence"""
+    tier = "quick" if quick else "thorough"
+    inputs = []                      # (kind, bytes)
+    for kind, t in typed_docs:
+        inputs.append((kind, encode(t)))
+    ndirected = len(inputs)
+    nold = 0
+    for kind, x, _ in cases:
+        if kind == "deep":
+            continue
+        if kind.startswith("mal-"):
+            nold += 1
+            if nold % 3:
+                continue             # (the untyped malformed stream went through -p and the sanitizer build already: every third)
+        inputs.append((kind, x))
+    # malformed stream around small typed documents: one of each universal tag number first, then random ones
+    small = []
+    seen = set()
+    for kind, x in inputs[:ndirected]:
+        if kind == "typed-directed" and 4 <= len(x) <= 14 and x[0] not in seen and x[0] < 0x1f:
+            seen.add(x[0]); small.append(x)
+    small += [bytes.fromhex(h) for h in ("06062a0304050607", "0d052a03040506", "06092a864886f70d01010b", "02080123456789abcdef", "0101ff", "0209ff0123456789abcdef",
+                                          "0c06e282acf09f98", "170d3233303130313132303030305a", "300a06032a03040c03e282ac", "308006035504030101000000")]
+    small += [encode(g_ttree(rng, 1 + rng.below(3))) for _ in range(10 if quick else 150)]
+    small = [d for d in small if len(d) <= 24]
+    if quick and len(small) > 36:
+        small = small[::2]
+    for k, x in mutate_typed(rng, small, tier):
+        inputs.append(("mal-typed-" + k, x))
+
+    def skip_of(x, j):
+        return str([0, 1, 2, 3, max(0, len(x) - 1), len(x), len(x) + 1, 5, 2 ** 31, 7][j % 10] if j % 3 else rng.below(len(x) + 2))
+    jobs, meta, groups = [], {}, {}
+
+    def add(x, args, kind, mode, use_stdin=False, both=False, allowed=(0, 65), wf=False):
+        jid = len(meta)
+        meta[jid] = (x, args, kind, mode, allowed)
+        if wf and len(x) <= 4096 and args[-1] == "F" and not use_stdin and "-s" not in args:
+            groups.setdefault((tuple(args[:-1]), both), []).append((jid, x))
+        else:
+            jobs.append(("S", jid, x, args, use_stdin, both))
+    for j, (kind, x) in enumerate(inputs):
+        nodes, wf, info = walk(x)
+        wf = wf and info["maxtag"] < TAG_LIMIT and info["maxhdr"] <= TL_BUF
+        add(x, ["F"], kind, "plain", both=True, wf=wf)
+        # a second mode: for every third directed document, every other malformed input, every other input
+        # (the options do not look at the contents; -s turns the rest of a document into arbitrary octets)
+        per = 3 if kind in ("typed-directed", "typed-nested") else 2 if kind.startswith("mal-") else 1
+        if j % per:
+            continue
+        r = (j // per) % 12
+        if r == 0:
+            add(x, ["-m", "F"], kind, "-m", wf=wf)
+        elif r == 1:
+            add(x, ["-1", "F"], kind, "-1", wf=wf)
+        elif r == 2:
+            add(x, ["-i", str((j // per // 12) % 16), "F"], kind, "-i", wf=wf and (j // per) % 24 != 2)
+        elif r == 3:
+            add(x, ["-s", skip_of(x, j // per // 12), "F"], kind, "-s")
+        elif r == 4:
+            add(x, ["-m", "-1", "-i", str((j // per // 12) % 3), "F"], kind, "-m-1-i", wf=wf)
+        elif r == 5:
+            add(x, ["-"], kind, "stdin", use_stdin=True)
+        elif r == 6:
+            add(x, ["-m", "-p", "F"], kind, "-m-p", wf=wf)
+        elif r == 7:
+            add(x, ["F", "F"], kind, "two-files")
+        elif r == 8:
+            add(x, ["-i", "15", "-s", skip_of(x, j // per // 12), "F"], kind, "-s")
+        elif r == 9:
+            add(x, ["-1", "-s", skip_of(x, j // per // 12), "-"], kind, "-s", use_stdin=True)
+        elif r == 10:
+            add(x, ["-m", "F"], kind, "-m", wf=wf)
+        else:
+            add(x, ["-i", "0", "F"], kind, "-i", wf=wf)
+    # -t <hex-string>: the TL headers of the inputs, and strings that are not hex
+    tstr = list(T_STRINGS)
+    for j in range(0, len(inputs), max(1, len(inputs) // (60 if quick else 600))):
+        x = inputs[j][1][:34]
+        h = x.hex()
+        tstr.append(h if j % 3 else (" ".join(h[k:k + 2] for k in range(0, len(h), 2)) if j % 2 else h[:len(h) - 1]))
+    for _ in range(20 if quick else 300):
+        tstr.append("".join(rng.choice("0123456789abcdefABCDEF \t" if rng.chance(9, 10) else "gxz-") for _ in range(rng.below(30))))
+    for s in tstr:
+        add(None, ["-t", s], "t-string", "-t", both=True)
+    # command lines that are refused
+    for args, code in ((["-i", "16", "F"], 64), (["-i", "-1", "F"], 64), (["-s", "-1", "F"], 64), (["-x", "F"], 64), ([], 1), (["-m"], 1), (["-h"], 64),
+                       (["-v"], 0), (["/nonexistent/c20"], 65), (["-i", "abc", "F"], 0), (["-i"], 64), (["-t"], 64)):
+        add(b"\x30\x03\x02\x01\x05", args, "usage", "usage", both=True, allowed=(0, code))
+    nbatch = 0
+    for (opts, both), members in groups.items():
+        for k in range(0, len(members), BATCH):
+            part = members[k:k + BATCH]
+            jobs.append(("B", [m[0] for m in part], [m[1] for m in part], list(opts), both))
+            nbatch += 1
+
+    def weight(job):
+        if job[0] == "B":
+            return sum(len(x) for x in job[2]) + 4000 * len(job[2])
+        return (len(job[2]) if job[2] else 0) + 4000
+    order = sorted(jobs, key=lambda j: -weight(j))
+    nb = NCPU * 8
+    batches = [order[i::nb] for i in range(nb)]
+    results, batchfails = {}, []
+    with multiprocessing.Pool(NCPU, initializer=_init, initargs=(unber, None, asan, tmpdir)) as pool:
+        for rs in pool.imap_unordered(_work_modes, [b for b in batches if b]):
+            for r in rs:
+                if r[0] == "batch":
+                    batchfails.append(r)
+                else:
+                    results[r[0]] = r
+    log("[c20] modes: %d runs (%d sanitizer processes, %d of them over up to %d well-formed files) on %d inputs done %.1fs"
+        % (len(meta), len(jobs), nbatch, BATCH, len(inputs), time.time() - T0))
+
+    # OID arc count: model (Leaf/Oid.v get_arcs, the subject of C20_oid_arc_count) vs what plain unber prints
+    oid_jobs, by_x = [], {}
+    for jid in sorted(meta):
+        x, args, kind, mode, _ = meta[jid]
+        if mode == "plain" and kind == "typed-directed" and x[0] in (6, 13) and len(x) < 2000 and x not in by_x:
+            nodes, wf, _ = walk(x)
+            if wf and len(nodes) == 1:
+                by_x[x] = jid
+                oid_jobs.append(jid)
+    olines = []
+    for jid in oid_jobs:
+        x = meta[jid][0]
+        n = walk(x)[0][0]
+        olines.append("c20_oid_arcs %d %s" % (x[0], hexs(x[n[4]:])))
+    rc_o, oo, oe = run_lines(model, olines, timeout=600) if olines else (0, [], "")
+    if rc_o != 0 or len(oo) != len(olines):
+        raise RuntimeError("model driver failed on c20_oid_arcs: rc=%s %s" % (rc_o, oe))
+    oid_model = dict(zip(oid_jobs, oo))
+
+    stats = {"runs": len(meta), "inputs": len(inputs), "sanitizer_processes": len(jobs), "batches": nbatch, "t_strings": len(tstr)}
+    for _, jids, arc, aerr in batchfails:
+        hx = " | ".join(meta[j][0].hex() for j in jids)
+        run.violation("oracle:memory-safety", {"what": "sanitizer build of unber fails on several well-formed files in one process although every file passes alone",
+                                               "command_line": "unber " + " ".join(meta[jids[0]][1][:-1]) + " F1 ... F%d" % len(jids), "input_hex": hx[:8000], "input": hx[:600],
+                                               "asan_exit": str(arc), "stderr": clip(aerr)})
+    for jid in sorted(meta):
+        x, args, kind, mode, allowed = meta[jid]
+        _, rrc, rerr, arc, aout, aerr, same = results[jid]
+        cmdline = "unber " + " ".join(("'%s'" % a if (" " in a or not a) else a) for a in args)
+        if len(cmdline) > 300:
+            cmdline = cmdline[:300] + "...(%d characters)" % len(cmdline)
+        run.case(cmdline + " " + ("" if x is None else x.hex() if len(x) <= 600 else "%d:%d" % (len(x), zlib.crc32(x))), nontrivial=True)
+        run.count("mode:" + mode)
+        if mode == "plain":
+            run.count("mode-kind:" + kind)
+        aex = mode_exit(arc, aerr, allowed)
+        rex = mode_exit(rrc, rerr, allowed) if rrc is not None else None
+        run.count("mode-exit:%s:%s" % (mode, aex.split(":")[0] + (":" + aex.split(":")[1] if aex.startswith("DIAG") else "")))
+        h = x.hex() if x is not None else ""
+        note = "   (input_hex on stdin)" if "-" in args else ("   (F = file holding input_hex)" if "F" in args else "")
+        rp = {"mode": mode, "command_line": cmdline + note,
+              "input_hex": h if len(h) <= 4000 else h[:4000] + "...(%d octets)" % len(x),
+              "input": (cmdline + "  F=" + h)[:600],
+              "replay_cmd": "xxd -r -p <<< $input_hex > F; ASAN_OPTIONS=detect_leaks=1 <ASan/UBSan build of unber> %s" % " ".join(args)[:300]}
+        # ---- the process ends by itself, no sanitizer report, no signal, in time
+        bad = None
+        if not (aex == "OK" or aex.startswith("DIAG")):
+            bad = ("sanitizer build: " + aex, aerr)
+        elif rex is not None and not (rex == "OK" or rex.startswith("DIAG")):
+            bad = ("plain build: " + rex, rerr)
+        elif rex is not None and (rex != aex or not same):
+            bad = ("plain and sanitizer builds of unber behave differently (%s / %s, same stdout: %s)" % (rex, aex, same), aerr or rerr)
+        if bad:
+            plain_fine = rex is None or rex == "OK" or rex.startswith("DIAG")
+            # finding C20-t-leak: -t only; LeakSanitizer only; the one block of decode_tlv_from_hex_string (strlen + 1 octets); the plain build is fine
+            if (mode == "-t" and arc == 77 and "ERROR: LeakSanitizer" in aerr and "ERROR: AddressSanitizer" not in aerr and "runtime error" not in aerr
+                    and re.search(r"SUMMARY: AddressSanitizer: %d byte\(s\) leaked in 1 allocation\(s\)" % (len(args[1].encode("utf-8", "surrogateescape")) + 1), aerr)
+                    and re.search(r"#1 0x[0-9a-f]+ in decode_tlv_from_hex_string ", aerr) and aerr.count("leak of") == 1 and plain_fine and rex is not None):
+                run.count("mode:-t:known-leak")
+                run.known_finding("C20-t-leak", args[1][:80])
+                continue
+            # finding C20-itoa-shift: UBSan's shift report at asn1p_integer.c:125 in asn1p_itoa_s and nothing else, on an input holding an
+            # INTEGER/ENUMERATED of 9..16 octets below LONG_MIN; never in -p mode; the plain build is fine
+            seen_x = x
+            if x is not None and "-s" in args:
+                seen_x = x[int(args[args.index("-s") + 1]):]
+            if (x is not None and "-p" not in args and arc == 78 and ITOA_SHIFT_RE.search(aerr) and aerr.count("runtime error") == 1 and "AddressSanitizer" not in aerr
+                    and plain_fine and big_negative_integer(seen_x)):
+                run.count("mode:known-itoa-shift")
+                run.known_finding("C20-itoa-shift", h[:120])
+                continue
+            run.violation("oracle:memory-safety", dict(rp, what="unber %s: %s" % ("(%s mode)" % mode, bad[0]), exit=rex, asan_exit=aex, stderr=clip(bad[1])))
+            continue
+        if mode == "usage":
+            want = allowed[1]
+            if arc != want or rrc != want:
+                run.violation("oracle:memory-safety", dict(rp, what="unber %s: expected exit status %d" % (cmdline, want), exit=rex, asan_exit=aex, stderr=aerr[-600:]))
+            continue
+        if x is None:
+            continue
+        # ---- well-formed input: every mode that reads the whole file ends with status 0
+        nodes, wf, info = walk(x)
+        if not wf or info["maxtag"] >= TAG_LIMIT or info["maxhdr"] > TL_BUF:
+            continue
+        if mode == "-s":
+            continue
+        run.count("mode-wf:" + mode)
+        if aex != "OK":
+            run.violation("oracle:modes", dict(rp, what="unber (%s mode) does not end with status 0 on a well-formed input" % mode, asan_exit=aex, stderr=aerr[-600:]))
+            continue
+        if mode in ("plain", "-i", "stdin") and aout is not None and len(aout) < 200000:
+            run.count("mode-fields:" + mode)
+            pn = plain_nodes(aout)
+            if pn != nodes:
+                d = next((k for k in range(min(len(pn), len(nodes))) if pn[k] != nodes[k]), min(len(pn), len(nodes)))
+                run.violation("oracle:fields", dict(rp, what="unber (%s mode) does not print the TLV structure of a well-formed input (offset, class, number, constructed, TL, V)" % mode,
+                                                    first_diff_index=d, printed=str(pn[d:d + 2]), expected=str(nodes[d:d + 2])))
+                continue
+        if jid in oid_model and aout is not None:
+            # arcs printed ("F>a.b.c</P>") or the octets ("...>&#x..;") when get_arcs fails
+            m = re.search(rb' F>([0-9.]+)</P>\n$', aout)
+            got = str(m.group(1).count(b".") + 1) if m else "fail"
+            vlen = nodes[0][5]
+            run.count("oid-arcs:" + ("fail" if got == "fail" else ("len+1" if int(got) == vlen + 1 else "<=len")))
+            if got != oid_model[jid] and not (vlen == 0 and got == "fail"):
+                run.count("model_vs_code_diff")
+                run.violation("correspondence:oid-arcs", dict(rp, what="number of arcs unber prints differs from the model's get_arcs (Leaf/Oid.v)", model=oid_model[jid], c=got,
+                                                              c_text=aout[-300:].decode("latin1")), no_input=True)
+            elif got != "fail" and int(got) > vlen + (1 if x[0] == 6 else 0):
+                run.violation("oracle:memory-safety", dict(rp, what="more arcs than slots in print_V's arc buffer", arcs=got, contents_octets=vlen))
+    return stats
+
+
 def main(tier):
     run = Run("C20", tier)
-    if not run.findings:     # fragment not yet assembled into known_findings.json by bin/mkmanifest
-        fp = os.path.join(VERIF, "findings.d", "C20.json")
-        if os.path.exists(fp):
-            run.findings = [f for f in json.load(open(fp)) if f.get("status") == "open"]
+    # entries of the fragment that bin/mkmanifest has not assembled into known_findings.json yet
+    fp = os.path.join(VERIF, "findings.d", "C20.json")
+    if os.path.exists(fp):
+        have_ids = {f["id"] for f in run.findings}
+        run.findings += [f for f in json.load(open(fp)) if f.get("status") == "open" and f["id"] not in have_ids]
     rng = Rng(run.seed)
     quick = tier == "quick"
 
@@ -572,6 +1257,11 @@ def main(tier):
         body = rng.bytes(n)
         t = ('C', 0, 16, False, [('C', 2, 2**14, True, [('P', 1, 128, body)]), ('P', 0, 5, b"")])
         cases.append(("wf-large", encode(t), [t]))
+    # typed trees: primitives of every universal tag number 1..30 with type-directed contents (the -p
+    # pipeline does not look at the contents; the same documents feed the other modes below)
+    for i in range(150 if quick else 1500):
+        t = g_ttree(rng, 1 + (i % 6))
+        cases.append(("wf-typed", encode(t), [t]))
     nwf = len(cases)
     # non-minimal variants (known finding): same trees, padded tag / length octets
     for i in range(250 if quick else 3000):
@@ -779,6 +1469,12 @@ def main(tier):
         run.violation("oracle:roundtrip", dict(rp, what="enber(unber -p(x)) != x for a well-formed x", enber_exit=eex, enber_stderr=eerr[-300:],
                                                got_hex=eout.hex()[:400]))
 
+    # 7. the other modes of unber (plain, -1, -i, -m, -s, stdin, several files, -t): memory safety / termination
+    typed_docs = typed_directed(quick)
+    for i in range(300 if quick else 3000):
+        typed_docs.append(("typed-random", g_ttree(rng, 1 + (i % 5))))
+    mstats = modes_stage(run, rng, cases, typed_docs, unber, asan, model, tmpdir, quick)
+
     for k in (0, nwf // 2, nwf + 3, len(cases) - 40):
         kind, x, _ = cases[k]
         if len(x) <= 64:
@@ -796,12 +1492,13 @@ def main(tier):
           "gcc; ASan/UBSan build of asn1-tools/unber; LP64"]
     return run.finish("proof", (nthm, ndis), trusted_base=tb,
                       checker_cmd="make -C /verif all && coqc -Q coq A1 coq/Props/Properties_C20.v",
-                      extra_cov={"theorems": names, "asan_runs": nasan, "coqchk": chk,
-                                 "rule": "directed: 4 classes x tag numbers {0..2,4,16,17,29..32,127..129,2^14-1,2^14,2^21-1,2^21,2^28-1,2^28,2^30-1} as primitive/definite/indefinite; content lengths {0,1,2,126..129,255..257,65535,65536} primitive and constructed; random trees with a spine of every depth 1..%d, fan-out <= 3, definite/indefinite chosen per node; chains; multi-TLV files; non-minimal variants (padded tag/length octets); malformed: truncation at every offset, every bit of every header octet flipped, byte edits, random and structured-random strings, TL-buffer/tag/length limits; one 60000-deep document" % maxd,
+                      extra_cov={"theorems": names, "asan_runs": nasan + mstats["sanitizer_processes"], "coqchk": chk, "modes": mstats,
+                                 "rule": "directed: 4 classes x tag numbers {0..2,4,16,17,29..32,127..129,2^14-1,2^14,2^21-1,2^21,2^28-1,2^28,2^30-1} as primitive/definite/indefinite; content lengths {0,1,2,126..129,255..257,65535,65536} primitive and constructed; random trees with a spine of every depth 1..%d, fan-out <= 3, definite/indefinite chosen per node; chains; multi-TLV files; non-minimal variants (padded tag/length octets); malformed: truncation at every offset, every bit of every header octet flipped, byte edits, random and structured-random strings, TL-buffer/tag/length limits; one 60000-deep document; other modes of unber (plain, -m, -1, -i 0..15, -s, stdin, two files, -t, refused command lines): primitives of every universal tag number 0..32 (+127, 2^30-1, other classes) with per-type contents (OID: all-single-octet arcs of every length 1..20, first-subidentifier splits, multi-octet subidentifiers up to 2^70, 0x80 lead octets, unterminated; INTEGER 0..10/16/17/128 octets; BOOLEAN; times; REAL; strings at lengths around 8/16/32/64/256 with printable/XML-special/control/0x1b/12.5%%-threshold/UTF-8/invalid UTF-8 contents; 128 KiB cut-off), nested, random typed trees, all documents of the -p stream; malformed: truncation at every offset and every bit of every octet of small typed documents, byte edits, universal headers with wrong lengths" % maxd,
                                  "traces_validated_against_impl": len(cases)},
                       assumptions=["models of libasn1_unber_tool.c (-p mode) and enber.c are hand-written at the line-record level; text layer (printf formats, attribute scanning, &#xNN; escapes, fgets line assembly) is tied by differential run only",
                                    "stack depth is not modelled (process_deeper recursion is unbounded: finding C20-deep-recursion)",
-                                   "options other than -p (unber) and none (enber) are not modelled"])
+                                   "options other than -p (unber) and none (enber) are not modelled; unber's other modes are run for memory safety, termination, exit status and TLV fields only, their pretty-printed values are not checked (except the number of OID arcs against Leaf/Oid.v)",
+                                   "C20_oid_arc_count*: the model of OBJECT_IDENTIFIER_get_arcs / RELATIVE_OID_get_arcs is Leaf/Oid.v (tie: C17 check, and c20_oid_arcs here); malloc is not modelled"])
 
 
 if __name__ == "__main__":
